@@ -54,7 +54,7 @@ func C02(r *core.Run) {
 		"(R02.2) every Backend/VersionedBackend method of every implementation can return the error code its contract mandates (NoSuchBucket, NoSuchKey, BucketAlreadyExists, BucketNotEmpty, NoSuchVersion); " +
 		"(R02.3) no delete operation can return NoSuchKey (idempotence); (R02.4) every ErrorCode used has an explicit HTTP status and the five codes of the property map to 404/409, every handler error reaches httpError, ensureErrorResponse is total; " +
 		"(R02.5) CopyObject wires source to destination with the fetched object's contents, size and hash; (R02.6) bucket removal happens only on the non-empty-test's empty arm; " +
-		"(R01.2, shared) every PutObject replaces the stored bytes by one consumption of the input (fs: truncating open of the object path); (R10.7, shared) object deletion is never recursive; (R02.7) deleting a nested key on the fs backends prunes the directories it leaves empty, so an emptied bucket can be deleted. (R02.8) the existence check that may auto-create a bucket is applied only to the addressed bucket; R02.7 also requires the emptiness test to be of the very directory that is removed."
+		"(R01.2, shared) every PutObject replaces the stored bytes by one consumption of the input (fs: truncating open of the object path); (R10.7, shared) object deletion is never recursive; (R02.7) deleting a nested key on the fs backends prunes the directories it leaves empty, so an emptied bucket can be deleted. (R02.8) the existence check that may auto-create a bucket is applied only to the addressed bucket; R02.7 also requires the emptiness test to be of the very directory that is removed. (R02.9) the fs delete path does not hand a directory to Remove."
 	r.NotDecided = "read-your-writes, overwrite/copy value semantics, agreement of whole responses with a reference model, auto-bucket behaviour"
 	rule021(r)
 	rule022(r)
@@ -68,6 +68,7 @@ func C02(r *core.Run) {
 	rule107(r)
 	rule027(r)
 	rule028(r)
+	rule029(r)
 }
 
 // handler exceptions for R02.1, one reason each
@@ -576,7 +577,8 @@ func rule027(r *core.Run) {
 				kp := paramNamed(fn, "objectName")
 				if kp != nil && as.HasValue(kp) && core.Reaches(objRemove.(ssa.Instruction), c) {
 					for ret, ev := range returnedErrors(fn) {
-						if definitelyNil(r, ev) && !core.CheckedBefore(c, ret) {
+						// a success before anything was removed (e.g. the path is a directory, not a key) has nothing to prune
+						if definitelyNil(r, ev) && core.Reaches(objRemove.(ssa.Instruction), ret) && !core.CheckedBefore(c, ret) {
 							return
 						}
 					}
@@ -628,4 +630,50 @@ func rule028(r *core.Run) {
 			"ensureBucketExists is applied to a bucket name that is not the handler's own bucket parameter (a value parsed from the request): with auto-bucket on, merely naming a bucket as a source creates it")
 	}
 	r.Floor("R02.8", 10, "ensureBucketExists call sites")
+}
+
+// rule029 — a directory at a key's path is not an object to delete.
+func rule029(r *core.Run) {
+	r.Rule("R02.9", "in each fs backend the object-delete path removes the file at the object's path only where a Stat of that same path did not report a directory: a directory exists only because keys live below it, it is not a key (deleting a never-written key must succeed and change nothing; Remove of a directory fails on a real filesystem and, on MemMapFs, silently drops the directory entry of live keys)")
+	for _, impl := range []string{"s3afero.(*MultiBucketBackend)", "s3afero.(*SingleBucketBackend)"} {
+		fn := mustFunc(r, impl+".deleteObjectLocked")
+		if fn == nil {
+			continue
+		}
+		name := fname(r, fn)
+		var objRemove *ssa.Call
+		for _, c := range r.P.CallsIn(fn, false, core.NameIs("invoke:github.com/spf13/afero.Fs.Remove")) {
+			ps := r.P.SliceOf(c.Common().Args[0], core.SliceOpts{Depth: -1})
+			if !ps.Has("call:path.Dir") && !ps.Has("call:path/filepath.Dir") {
+				objRemove, _ = c.(*ssa.Call)
+			}
+		}
+		if objRemove == nil {
+			r.Unresolved("R02.9: object Remove not found in %s", name)
+			continue
+		}
+		rmPath := stripPathConv(r, objRemove.Call.Args[0])
+		assume := map[ssa.Value]bool{}
+		core.Instrs(fn, func(in ssa.Instruction) {
+			c, ok := in.(*ssa.Call)
+			if !ok || !c.Call.IsInvoke() || c.Call.Method.Name() != "IsDir" {
+				return
+			}
+			rs := r.P.SliceOf(c.Call.Value, core.SliceOpts{Depth: -1})
+			for sc := range rs.Calls {
+				if strings.HasSuffix(r.P.CalleeName(sc), "afero.Fs.Stat") && len(sc.Common().Args) == 1 && stripPathConv(r, sc.Common().Args[0]) == rmPath {
+					assume[c] = true
+				}
+			}
+		})
+		ok := len(assume) > 0
+		for c := range assume {
+			// on the paths that asked: a directory never reaches the Remove
+			if core.ReachesAssuming(c.(ssa.Instruction), objRemove, assume) {
+				ok = false
+			}
+		}
+		r.Check(ok, "R02.9", key(name, "a directory is not a key"), pos(r, objRemove), "Remove(object path) unreachable when Stat(object path).IsDir()",
+			"the object file is removed without first ruling out that the path is a directory: DELETE of a never-written key that is a directory on disk answers 500 on a real filesystem (and on MemMapFs drops the directory entry of the keys below it)")
+	}
 }
